@@ -17,6 +17,7 @@ use robopoker::gameplay::seat::State;
 use robopoker::mccfr::blueprint::Blueprint;
 use robopoker::mccfr::bucket::Bucket;
 use robopoker::mccfr::counterfactual::Counterfactual;
+use robopoker::mccfr::data::Data;
 use robopoker::mccfr::edge::Edge;
 use robopoker::mccfr::encoder::Encoder;
 use robopoker::mccfr::info::Info;
@@ -24,6 +25,7 @@ use robopoker::mccfr::odds::Odds;
 use robopoker::mccfr::partition::Partition;
 use robopoker::mccfr::player::Player;
 use robopoker::mccfr::profile::Profile;
+use robopoker::mccfr::tree::Branch;
 use robopoker::mccfr::tree::Tree;
 use robopoker::verif::{MAX_DEPTH_SUBGAME, MAX_RAISE_REPEATS, STACK};
 use rpharness::*;
@@ -49,6 +51,102 @@ fn same_game(a: &Game, b: &Game) -> bool {
 
 fn is_aggro(e: &Edge) -> bool {
     matches!(e, Edge::Raise(_) | Edge::Shove)
+}
+
+const P0: Player = Player(Turn::Choice(0));
+const P1: Player = Player(Turn::Choice(1));
+
+/// payout of a finished two-seat hand by the RULES (independent of Showdown / Strength): a fold
+/// costs the folder what he put in, at a showdown the better best-five (rules evaluator of
+/// harness/src/lib.rs, by enumeration of 5-subsets) wins what the other matched, a tie costs nothing
+fn rules_payout(game: &Game) -> Option<(i32, i32)> {
+    let seats = game.verif_seats();
+    if seats.len() != 2 {
+        return None;
+    }
+    let r = [seats[0].3 as i32, seats[1].3 as i32];
+    let folded = [matches!(seats[0].0, State::Folding), matches!(seats[1].0, State::Folding)];
+    match folded {
+        [true, false] => Some((-r[0], r[0])),
+        [false, true] => Some((r[1], -r[1])),
+        [true, true] => None,
+        _ => {
+            let board = u64::from(Hand::from(game.board()));
+            if board.count_ones() != 5 {
+                return None;
+            }
+            let v0 = poker::best5(u64::from(Hand::from(seats[0].4)) | board, is_shortdeck());
+            let v1 = poker::best5(u64::from(Hand::from(seats[1].4)) | board, is_shortdeck());
+            let m = r[0].min(r[1]);
+            Some(match v0.cmp(&v1) {
+                std::cmp::Ordering::Greater => (m, -m),
+                std::cmp::Ordering::Less => (-m, m),
+                std::cmp::Ordering::Equal => (0, 0),
+            })
+        }
+    }
+}
+
+fn show_edge(e: &Edge) -> String {
+    match e {
+        Edge::Raise(o) => format!("R{}:{}", o.0, o.1),
+        e => format!("{e}"),
+    }
+}
+
+fn show_cards(mask: u64) -> String {
+    (0..52u8).filter(|c| mask >> c & 1 == 1).map(|c| format!("{}{}", ["2", "3", "4", "5", "6", "7", "8", "9", "T", "J", "Q", "K", "A"][(c / 4) as usize], ["c", "d", "h", "s"][(c % 4) as usize])).collect::<Vec<_>>().join("")
+}
+
+/// the leaf clause on one childless node, through the real Node::payoff: finished hand, the two
+/// payoffs sum to zero, and they are the rules payout. returns the payoffs (0, 0 if unavailable)
+fn check_leaf(run: &mut Run, node: &robopoker::mccfr::node::Node, at: &str) -> (i32, i32) {
+    run.spec_checked += 1;
+    let game = node.data().game();
+    let describe = || {
+        let seats = game.verif_seats();
+        format!(
+            "{at}: line [{}] board {} holes {} / {} spent {} / {}",
+            node.history().iter().map(|e| show_edge(e)).collect::<Vec<_>>().join(" "),
+            show_cards(u64::from(Hand::from(game.board()))),
+            show_cards(u64::from(Hand::from(seats[0].4))),
+            show_cards(u64::from(Hand::from(seats[1].4))),
+            seats[0].3,
+            seats[1].3
+        )
+    };
+    if game.turn() != Turn::Terminal {
+        run.fail("leaf-not-finished-hand", at, "Terminal", &format!("{:?}", game.turn()));
+        return (0, 0);
+    }
+    let mut pay = (0i32, 0i32);
+    match catch(std::panic::AssertUnwindSafe(|| game.settlements().iter().map(|s| s.pnl() as i32).collect::<Vec<_>>())) {
+        Some(p) if p.len() == 2 => {
+            pay = (p[0], p[1]);
+            if p[0] + p[1] != 0 {
+                run.fail("leaf-payoffs-not-zero-sum", &describe(), "0", &format!("{} + {}", p[0], p[1]));
+            }
+        }
+        other => run.fail("leaf-settlement-fails", &describe(), "two payoffs", &format!("{other:?}")),
+    }
+    match catch(std::panic::AssertUnwindSafe(|| (node.payoff(&P0), node.payoff(&P1)))) {
+        Some((a, b)) => {
+            if a + b != 0.0 {
+                run.fail("leaf-node-payoffs-not-zero-sum", &describe(), "Node::payoff(P0) + Node::payoff(P1) = 0", &format!("{a} + {b}"));
+            }
+            if (a, b) != (pay.0 as f32, pay.1 as f32) {
+                run.fail("node-payoff-not-settlement-pnl", &describe(), &format!("{pay:?}"), &format!("({a}, {b})"));
+            }
+        }
+        None => run.fail("leaf-settlement-fails", &describe(), "Node::payoff returns", "panic"),
+    }
+    if let Some(want) = rules_payout(game) {
+        run.spec_checked += 1;
+        if want != pay {
+            run.fail("leaf-payoff-not-rules-payout", &describe(), &format!("{want:?}"), &format!("{pay:?}"));
+        }
+    }
+    pay
 }
 
 /// per-tree oracle + dump; returns the dump line (None if the tree is too big to dump)
@@ -150,23 +248,10 @@ fn check_tree(run: &mut Run, rng: &mut Rng, tree: &Tree, profile: &Profile, know
                 }
             }
         }
-        // ---- leaves are finished hands, zero-sum
+        // ---- leaves are finished hands, zero-sum, paid by the rules
         let mut pay = (0i32, 0i32);
         if children.is_empty() {
-            run.spec_checked += 1;
-            if game.turn() != Turn::Terminal {
-                run.fail("leaf-not-finished-hand", &at, "Terminal", &format!("{:?}", game.turn()));
-            } else {
-                match catch(std::panic::AssertUnwindSafe(|| game.settlements().iter().map(|s| s.pnl() as i32).collect::<Vec<_>>())) {
-                    Some(p) if p.len() == 2 => {
-                        pay = (p[0], p[1]);
-                        if p[0] + p[1] != 0 {
-                            run.fail("leaf-payoffs-not-zero-sum", &at, "0", &format!("{} + {}", p[0], p[1]));
-                        }
-                    }
-                    other => run.fail("leaf-settlement-fails", &at, "two payoffs", &format!("{other:?}")),
-                }
-            }
+            pay = check_leaf(run, node, &at);
         }
         // ---- bucket = (recalled history, card bucket of (actor's hole, board), menu)
         run.spec_checked += 1;
@@ -277,13 +362,192 @@ fn check_partition(run: &mut Run, tree: Tree, label: &str) -> Vec<Info> {
     infos
 }
 
+/// a chosen deal: both holes and the five board cards (flop = first three, then turn, river)
+#[derive(Clone)]
+struct Deal {
+    name: String,
+    holes: [u64; 2],
+    board: [u8; 5],
+}
+impl Deal {
+    fn root(&self) -> Game {
+        Game::root().verif_with_holes(&[Hole::from(Hand::from(self.holes[0])), Hole::from(Hand::from(self.holes[1]))])
+    }
+    /// the cards chance reveals when `shown` board cards are out
+    fn reveal(&self, shown: u32) -> Hand {
+        let cards: &[u8] = match shown {
+            0 => &self.board[0..3],
+            3 => &self.board[3..4],
+            _ => &self.board[4..5],
+        };
+        Hand::from(cards.iter().fold(0u64, |m, c| m | 1u64 << c))
+    }
+    fn describe(&self) -> String {
+        format!("{} (holes {} / {}, board {} {} {})", self.name, show_cards(self.holes[0]), show_cards(self.holes[1]),
+            show_cards(self.board[0..3].iter().fold(0u64, |m, c| m | 1u64 << c)), show_cards(1u64 << self.board[3]), show_cards(1u64 << self.board[4]))
+    }
+}
+
+/// STRUCTURED RARE deals: boards and holes that random dealing (2.6M boards) practically never
+/// produces but on which the showdown takes its extreme branches: the strongest possible hand
+/// on the board / in one hand, straight flushes, quads and full houses on the board with and
+/// without a playing kicker, boards that play for both, plus ordinary random deals as controls
+fn structured_deals(rng: &mut Rng) -> Vec<Deal> {
+    let c = |rank: u8, suit: u8| rank * 4 + suit;
+    let mut out: Vec<Deal> = vec![];
+    // fixed: cards named per seat (0..=2 each); the rest is drawn at random outside `avoid`
+    let mut make = |name: &str, board: Vec<u8>, fixed: [Vec<u8>; 2], avoid: u64, rng: &mut Rng| {
+        let mut used = board.iter().chain(fixed[0].iter()).chain(fixed[1].iter()).fold(0u64, |m, c| m | 1u64 << c);
+        let mut holes = [0u64; 2];
+        for i in 0..2 {
+            let mut h = fixed[i].iter().fold(0u64, |m, c| m | 1u64 << c);
+            let fill = rng.cards(2 - fixed[i].len(), ((1u64 << 52) - 1) & !used & !avoid);
+            h |= fill;
+            used |= fill;
+            holes[i] = h;
+        }
+        let mut b = [0u8; 5];
+        b.copy_from_slice(&board);
+        // the order in which the board arrives is shuffled
+        for k in (1..5).rev() {
+            b.swap(k, rng.below(k as u64 + 1) as usize);
+        }
+        out.push(Deal { name: name.to_string(), holes, board: b });
+    };
+    for s in 0..4u8 {
+        let other = (s + 1) % 4;
+        let seat = (s % 2) as usize;
+        let at = |seat: usize, cards: Vec<u8>| if seat == 0 { [cards, vec![]] } else { [vec![], cards] };
+        let suit_mask = (0..13u8).fold(0u64, |m, r| m | 1u64 << c(r, s));
+        make("royal flush ON THE BOARD", (8..13).map(|r| c(r, s)).collect(), [vec![], vec![]], 0, rng);
+        make("royal flush ON THE BOARD, one seat holds a pocket pair", (8..13).map(|r| c(r, s)).collect(), at(seat, vec![c(5, other), c(5, (s + 2) % 4)]), 0, rng);
+        make("king-high straight flush on the board, one seat holds the ace of the suit (royal flush with one hole card)", (7..12).map(|r| c(r, s)).collect(), at(seat, vec![c(12, s)]), 0, rng);
+        make("king-high straight flush on the board, nobody holds the ace of the suit", (7..12).map(|r| c(r, s)).collect(), [vec![], vec![]], 1u64 << c(12, s), rng);
+        make("royal flush with two hole cards against a lower straight flush", vec![c(10, s), c(9, s), c(8, s), c(3, other), c(0, other)], if seat == 0 { [vec![c(12, s), c(11, s)], vec![c(7, s), c(6, s)]] } else { [vec![c(7, s), c(6, s)], vec![c(12, s), c(11, s)]] }, 0, rng);
+        make("royal flush with two hole cards", vec![c(12, s), c(10, s), c(8, s), c(8, other), c(2, other)], at(1 - seat, vec![c(11, s), c(9, s)]), 0, rng);
+        make("nine-high straight flush on the board, plays for both", (3..8).map(|r| c(r, s)).collect(), [vec![], vec![]], 1u64 << c(8, s), rng);
+        make("nine-high straight flush on the board, one seat holds the ten of the suit", (3..8).map(|r| c(r, s)).collect(), at(seat, vec![c(8, s)]), 0, rng);
+        make("five-high straight flush (wheel) on the board, plays for both", vec![c(12, s), c(0, s), c(1, s), c(2, s), c(3, s)], [vec![], vec![]], 1u64 << c(4, s), rng);
+        make("five-high straight flush (wheel) on the board, one seat holds the six of the suit", vec![c(12, s), c(0, s), c(1, s), c(2, s), c(3, s)], at(1 - seat, vec![c(4, s)]), 0, rng);
+        let aces = (0..4u8).fold(0u64, |m, x| m | 1u64 << c(12, x));
+        let q = 2 + 2 * s;
+        make("quads on the board with a king, no ace out: board plays for both", vec![c(q, 0), c(q, 1), c(q, 2), c(q, 3), c(11, s)], [vec![], vec![]], aces, rng);
+        make("quads on the board with a king, one seat holds an ace", vec![c(q, 0), c(q, 1), c(q, 2), c(q, 3), c(11, s)], at(seat, vec![c(12, other)]), aces, rng);
+        make("quads on the board with a king, both seats hold an ace", vec![c(q, 0), c(q, 1), c(q, 2), c(q, 3), c(11, s)], [vec![c(12, s)], vec![c(12, other)]], 0, rng);
+        make("quads on the board with a deuce", vec![c(q, 0), c(q, 1), c(q, 2), c(q, 3), c(0, s)], [vec![], vec![]], 0, rng);
+        make("full house on the board", vec![c(11, 0), c(11, 1), c(11, 2), c(3 + s, 0), c(3 + s, 3)], [vec![], vec![]], 1u64 << c(11, 3), rng);
+        make("full house on the board, one seat holds the fourth king", vec![c(11, 0), c(11, 1), c(11, 2), c(3 + s, 0), c(3 + s, 3)], at(seat, vec![c(11, 3)]), 0, rng);
+        make("ace-high straight on the board, no flush possible: split", vec![c(8, s), c(9, other), c(10, (s + 2) % 4), c(11, (s + 3) % 4), c(12, s)], [vec![], vec![]], 0, rng);
+        make("flush on the board, nobody holds the suit: split", vec![c(0, s), c(3, s), c(5, s), c(8, s), c(10, s)], [vec![], vec![]], suit_mask, rng);
+        make("flush on the board, one seat holds the ace of the suit", vec![c(0, s), c(3, s), c(5, s), c(8, s), c(10, s)], at(seat, vec![c(12, s)]), 0, rng);
+        make("two pair on the board", vec![c(12, s), c(12, other), c(11, s), c(11, other), c(10, (s + 2) % 4)], [vec![], vec![]], 0, rng);
+        let any = rng.cards(5, (1u64 << 52) - 1);
+        make("random deal (control)", (0..52u8).filter(|x| any >> x & 1 == 1).collect(), [vec![], vec![]], 0, rng);
+    }
+    out
+}
+
+/// one hand planted by hand on the real tree primitives along ONE line of the abstract game:
+/// Tree::plant the root of the chosen deal, then repeatedly Tree::fork either a branch of
+/// Encoder::branches (decisions: the edge is picked from the node's own menu by `style`) or the
+/// child Game::apply(Action::Draw(chosen cards)) (chance). the leaf goes through check_leaf.
+/// styles: 0 check-down, 1 bet-and-call every street, 2 all-in before the flop, 3 check to a
+/// street then all-in, 4 a fold at the k-th decision that offers one, 5 random walk
+fn line_hand(run: &mut Run, rng: &mut Rng, encoder: &Encoder, deal: &Deal, style: u64) {
+    let mut tree = Tree::empty(if rng.chance(1, 2) { P0 } else { P1 });
+    let root = deal.root();
+    let mut head = tree.plant(Data::from((root, encoder.abstraction(&root)))).index();
+    let jam_street = rng.below(4) as u32; // style 3: 0 pre, 1 flop, 2 turn, 3 river
+    let fold_at = rng.below(6) as usize; // style 4
+    let mut folds_seen = 0usize;
+    let mut steps = 0usize;
+    let what = format!("structured hand: {}, line style {style}", deal.describe());
+    loop {
+        steps += 1;
+        if steps > 64 {
+            run.fail("planted-hand-does-not-end", &what, "a finished hand within 64 edges", "still running");
+            return;
+        }
+        let branch = {
+            let node = tree.at(head);
+            let game = *node.data().game();
+            match game.turn() {
+                Turn::Terminal => break,
+                Turn::Chance => {
+                    let shown = u64::from(Hand::from(game.board())).count_ones();
+                    let draw = Action::Draw(deal.reveal(shown));
+                    if !game.is_allowed(&draw) {
+                        run.fail("chosen-reveal-not-permitted", &what, "a permitted draw", &format!("{draw:?}"));
+                        return;
+                    }
+                    let g = game.apply(draw);
+                    Branch(Data::from((g, encoder.abstraction(&g))), Edge::Draw, head)
+                }
+                Turn::Choice(_) => {
+                    let mut bs = encoder.branches(&node);
+                    let edges: Vec<Edge> = bs.iter().map(|b| *b.edge()).collect();
+                    let pos = |want: &dyn Fn(&Edge) -> bool| edges.iter().position(|e| want(e));
+                    let passive = pos(&|e| matches!(e, Edge::Check)).or(pos(&|e| matches!(e, Edge::Call)));
+                    let call = pos(&|e| matches!(e, Edge::Call)).or(pos(&|e| matches!(e, Edge::Check))).or(pos(&|e| matches!(e, Edge::Shove)));
+                    let raises: Vec<usize> = (0..edges.len()).filter(|&i| matches!(edges[i], Edge::Raise(_))).collect();
+                    let round_raised = node.history().iter().rev().take_while(|e| !matches!(e, Edge::Draw)).any(|e| is_aggro(e));
+                    let street = match u64::from(Hand::from(game.board())).count_ones() { 0 => 0, 3 => 1, 4 => 2, _ => 3 };
+                    let has_fold = pos(&|e| matches!(e, Edge::Fold));
+                    let i = match style {
+                        0 => passive,
+                        1 => if !round_raised && !raises.is_empty() { Some(raises[rng.below(raises.len() as u64) as usize]) } else { call },
+                        2 => pos(&|e| matches!(e, Edge::Shove)).or(call),
+                        3 => if street >= jam_street { pos(&|e| matches!(e, Edge::Shove)).or(call) } else { passive },
+                        4 => {
+                            if let Some(f) = has_fold {
+                                folds_seen += 1;
+                                if folds_seen > fold_at { Some(f) } else { call }
+                            } else if !raises.is_empty() && rng.chance(2, 3) {
+                                Some(raises[rng.below(raises.len() as u64) as usize])
+                            } else {
+                                passive
+                            }
+                        }
+                        _ => {
+                            let k = rng.below(edges.len() as u64) as usize;
+                            if matches!(edges[k], Edge::Fold) && rng.chance(3, 4) { call } else { Some(k) }
+                        }
+                    };
+                    let i = i.unwrap_or(0);
+                    bs.remove(i)
+                }
+            }
+        };
+        head = tree.fork(branch).index();
+    }
+    let leaf = tree.at(head);
+    run.evaluations += 1;
+    check_leaf(run, &leaf, &what);
+    let seats = leaf.data().game().verif_seats();
+    let ending = if seats.iter().any(|s| matches!(s.0, State::Folding)) { "fold" } else if seats.iter().any(|s| matches!(s.0, State::Shoving)) { "all-in showdown" } else { "showdown" };
+    run.count(&format!("structured-leaf {ending}"));
+    run.count(&format!("structured-deal {}", deal.name));
+    run.distinct(&(deal.holes, deal.board, leaf.history().iter().map(|e| u8::from(**e)).collect::<Vec<u8>>()));
+}
+
 /// replica of Blueprint::tree / Blueprint::sample on the real tree primitives (Tree::plant / fork,
 /// Node::realize, Encoder::branches, Profile::witness / explore_all / explore_any), with the
 /// opponent's branch chosen by a script instead of explore_one, so that long hands (lines deeper
 /// than the 16-edge window) are built deliberately.
-fn directed_tree(profile: &mut Profile, encoder: &Encoder, style: u64, rng: &mut Rng) -> Tree {
+fn directed_tree(profile: &mut Profile, encoder: &Encoder, style: u64, rng: &mut Rng, deal: Option<&Deal>) -> Tree {
     fn pick(node: &robopoker::mccfr::node::Node, branches: &Vec<robopoker::mccfr::tree::Branch>, style: u64, depth: usize, rng: &mut Rng) -> usize {
         let edges: Vec<Edge> = branches.iter().map(|b| *b.edge()).collect();
+        if style == 10 || style == 11 {
+            // 10: all-in at the first opportunity (then calls); 11: folds to any bet after the
+            // first decision of the hand, otherwise checks / calls
+            let at = |want: &dyn Fn(&Edge) -> bool| edges.iter().position(|e| want(e));
+            let passive = at(&|e| matches!(e, Edge::Check)).or(at(&|e| matches!(e, Edge::Call))).or(at(&|e| matches!(e, Edge::Shove)));
+            let choice = match style {
+                10 => at(&|e| matches!(e, Edge::Shove)).or(passive),
+                _ => if depth > 0 { at(&|e| matches!(e, Edge::Fold)).or(passive) } else { passive },
+            };
+            return choice.unwrap_or(0);
+        }
         if style == 9 {
             // small raises before the turn, check the turn, jam the river: the traverser's different
             // river lines then end in nodes deeper than 16 edges that share a bucket
@@ -316,12 +580,20 @@ fn directed_tree(profile: &mut Profile, encoder: &Encoder, style: u64, rng: &mut
             _ => 0,
         }
     }
-    fn sample(profile: &mut Profile, encoder: &Encoder, node: &robopoker::mccfr::node::Node, style: u64, depth: usize, rng: &mut Rng) -> Vec<robopoker::mccfr::tree::Branch> {
+    fn sample(profile: &mut Profile, encoder: &Encoder, node: &robopoker::mccfr::node::Node, style: u64, depth: usize, rng: &mut Rng, deal: Option<&Deal>) -> Vec<robopoker::mccfr::tree::Branch> {
         let walker = profile.walker();
         let mut branches = encoder.branches(node);
         match (branches.len(), node.player()) {
             (0, _) => vec![],
-            (_, p) if p == Player::chance() => profile.explore_any(branches, node),
+            (_, p) if p == Player::chance() => match deal {
+                None => profile.explore_any(branches, node),
+                Some(deal) => {
+                    // chance plays the chosen cards instead of the code's random draw
+                    let game = node.data().game();
+                    let g = game.apply(Action::Draw(deal.reveal(u64::from(Hand::from(game.board())).count_ones())));
+                    vec![Branch(Data::from((g, encoder.abstraction(&g))), Edge::Draw, node.index())]
+                }
+            },
             (_, p) if p != walker => {
                 profile.witness(node, &branches);
                 let i = pick(node, &branches, style, depth, rng);
@@ -335,15 +607,172 @@ fn directed_tree(profile: &mut Profile, encoder: &Encoder, style: u64, rng: &mut
     }
     let mut tree = Tree::empty(profile.walker());
     let mut todo: Vec<(robopoker::mccfr::tree::Branch, usize)> = {
-        let ref node = tree.plant(encoder.seed());
-        sample(profile, encoder, node, style, 0, rng).into_iter().map(|b| (b, 1)).collect()
+        let seed = match deal {
+            None => encoder.seed(),
+            Some(deal) => {
+                let root = deal.root();
+                Data::from((root, encoder.abstraction(&root)))
+            }
+        };
+        let ref node = tree.plant(seed);
+        sample(profile, encoder, node, style, 0, rng, deal).into_iter().map(|b| (b, 1)).collect()
     };
     while let Some((branch, depth)) = todo.pop() {
         let ref node = tree.fork(branch);
-        let kids = sample(profile, encoder, node, style, depth, rng);
+        let kids = sample(profile, encoder, node, style, depth, rng, deal);
         todo.extend(kids.into_iter().map(|b| (b, depth + 1)));
     }
     tree
+}
+
+/// `draws` draws of the real Profile::explore_one at one opponent node under the policy stored in
+/// `p2` (one PRNG seed per epoch), per-edge binomial test (6 sigma, at least +-6 draws) against
+/// Profile::weight: an action of weight ~0 must be drawn ~0 times, a heavy one with its weight
+fn frequency_test(run: &mut Run, p2: &mut Profile, encoder: &Encoder, node: &robopoker::mccfr::node::Node, draws: usize, what: &str) {
+    let menu: Vec<Edge> = Vec::<Edge>::from(node.bucket().2.clone());
+    let weights: Vec<f64> = menu.iter().map(|e| p2.weight(node.bucket(), e) as f64).collect();
+    let mut hist: BTreeMap<Edge, u64> = BTreeMap::new();
+    for t in 0..draws {
+        p2.verif_set_epochs(1000 + t);
+        run.evaluations += 1;
+        match catch(std::panic::AssertUnwindSafe(|| p2.explore_one(encoder.branches(node), node))) {
+            Some(chosen) if chosen.len() == 1 => *hist.entry(*chosen[0].edge()).or_insert(0) += 1,
+            Some(chosen) => run.fail("explore-one-not-one", what, "1", &format!("{}", chosen.len())),
+            None => {
+                run.fail("explore-one-panics", &format!("{what}, epoch {}", 1000 + t), "one branch", "panic");
+                return;
+            }
+        }
+    }
+    run.spec_checked += 1;
+    let t = draws as f64;
+    let table = menu.iter().zip(&weights).map(|(e, w)| format!("{}:w={w:.3e}:n={}", show_edge(e), hist.get(e).unwrap_or(&0))).collect::<Vec<_>>().join(" ");
+    for (e, w) in menu.iter().zip(&weights) {
+        let cnt = *hist.get(e).unwrap_or(&0) as f64;
+        let sigma = (t * w * (1.0 - w)).sqrt().max(1.0);
+        if (cnt - t * w).abs() > 6.0 * sigma {
+            run.fail(
+                "opponent-not-sampled-by-weight",
+                &format!("{what} ({t} draws over epochs 1000..) edge {}; per edge weight and count: {table}", show_edge(e)),
+                &format!("about {:.1} (weight {w:.3e})", t * w),
+                &format!("{cnt}"),
+            );
+        }
+    }
+    let extra: u64 = hist.iter().filter(|(e, _)| !menu.contains(e)).map(|(_, c)| *c).sum();
+    if extra > 0 {
+        run.fail("opponent-sampled-off-menu", what, "0", &format!("{extra}"));
+    }
+}
+
+/// EXTREME policies at hand-planted opponent nodes (wide root menu, big blind's option, facing a
+/// raise, facing an all-in, first to act on a chosen flop): numerically dead actions (stored
+/// policy 1e-7 / 1e-9 / 1e-12 / f32::MIN_POSITIVE next to actions that carry all the mass, at the
+/// front / middle / end of the menu), one dead action among live ones, and one dominant action
+/// (0.97 / 0.999) with the rest sharing or nearly dead
+fn extreme_policy_frequencies(run: &mut Run, rng: &mut Rng, draws: usize) {
+    let encoder = Encoder::default();
+    let all = (1u64 << 52) - 1;
+    let h0 = rng.cards(2, all);
+    let h1 = rng.cards(2, all & !h0);
+    let flop = rng.cards(3, all & !h0 & !h1);
+    let root = Game::root().verif_with_holes(&[Hole::from(Hand::from(h0)), Hole::from(Hand::from(h1))]);
+    let mut tree = Tree::empty(P1);
+    let r = tree.plant(Data::from((root, encoder.abstraction(&root)))).index();
+    fn step(tree: &mut Tree, encoder: &Encoder, from: petgraph::graph::NodeIndex, want: &dyn Fn(&Edge) -> bool) -> Option<petgraph::graph::NodeIndex> {
+        let b = {
+            let node = tree.at(from);
+            let mut bs = encoder.branches(&node);
+            let i = bs.iter().position(|b| want(b.edge()))?;
+            bs.remove(i)
+        };
+        Some(tree.fork(b).index())
+    }
+    let mut nodes: Vec<(petgraph::graph::NodeIndex, &str)> = vec![(r, "root (small blind to act)")];
+    let limp = step(&mut tree, &encoder, r, &|e| matches!(e, Edge::Call));
+    if let Some(limp) = limp {
+        nodes.push((limp, "big blind's option after a limp"));
+        if let Some(chance) = step(&mut tree, &encoder, limp, &|e| matches!(e, Edge::Check)) {
+            let g = { tree.at(chance).data().game().apply(Action::Draw(Hand::from(flop))) };
+            let f = tree.fork(Branch(Data::from((g, encoder.abstraction(&g))), Edge::Draw, chance)).index();
+            nodes.push((f, "first to act on the flop after limp, check"));
+            if let Some(bet) = step(&mut tree, &encoder, f, &|e| matches!(e, Edge::Raise(_))) {
+                nodes.push((bet, "facing a bet on the flop"));
+            }
+        }
+    }
+    if let Some(x) = step(&mut tree, &encoder, r, &|e| matches!(e, Edge::Raise(_))) {
+        nodes.push((x, "big blind facing a raise"));
+    }
+    if let Some(x) = step(&mut tree, &encoder, r, &|e| matches!(e, Edge::Shove)) {
+        nodes.push((x, "big blind facing an all-in"));
+    }
+    let tinies: [(f32, &str); 4] = [(1e-7, "1e-7"), (1e-9, "1e-9"), (1e-12, "1e-12"), (f32::MIN_POSITIVE, "f32::MIN_POSITIVE")];
+    for (index, name) in nodes {
+        let node = tree.at(index);
+        if !matches!(node.player(), Player(Turn::Choice(_))) {
+            continue;
+        }
+        let menu: Vec<Edge> = Vec::<Edge>::from(node.bucket().2.clone());
+        let n = menu.len();
+        if n < 2 {
+            continue;
+        }
+        let mut policies: Vec<(String, Vec<f32>, usize)> = vec![];
+        for (ti, (tiny, tname)) in tinies.iter().enumerate() {
+            // A: all the mass on two actions (one when the menu has two), every other action dead
+            let mut v = vec![*tiny; n];
+            if n == 2 {
+                v[(ti + 1) % 2] = 1.0;
+            } else {
+                let (a, b) = if ti == 0 { (n - 1, n / 2) } else {
+                    loop {
+                        let a = rng.below(n as u64) as usize;
+                        let b = rng.below(n as u64) as usize;
+                        if a != b && a.max(b) >= 2 { break (a, b); }
+                    }
+                };
+                v[a] = 0.65;
+                v[b] = 0.35;
+            }
+            policies.push((format!("mass on two actions, every other stored policy {tname}"), v, draws));
+            // B: one dead action among live ones
+            if n >= 3 {
+                let dead = [0, n / 2, n - 1, rng.below(n as u64) as usize][ti];
+                let mut order: Vec<usize> = (0..n).collect();
+                for k in (1..n).rev() {
+                    order.swap(k, rng.below(k as u64 + 1) as usize);
+                }
+                let mut v: Vec<f32> = order.iter().map(|k| 0.5f32.powi(*k as i32) + 0.01).collect();
+                v[dead] = *tiny;
+                policies.push((format!("one action (menu position {dead}) with stored policy {tname} among live ones"), v, draws));
+            }
+        }
+        for dom in [0.97f32, 0.999] {
+            let at = rng.below(n as u64) as usize;
+            let mut v = vec![(1.0 - dom) / (n - 1) as f32; n];
+            v[at] = dom;
+            policies.push((format!("one dominant action {dom} (menu position {at}), the rest share the remainder"), v, 4 * draws));
+        }
+        if n >= 3 {
+            let at = 1 + rng.below(n as u64 - 1) as usize;
+            let mut v = vec![1e-9f32; n];
+            v[at] = 0.999;
+            v[(at + 1 + rng.below(n as u64 - 1) as usize) % n] = 0.001;
+            policies.push((format!("one dominant action 0.999 (menu position {at}), one at 0.001, the rest 1e-9"), v, 4 * draws));
+        }
+        for (pname, values, t) in policies {
+            let mut p2 = Profile::default();
+            for (e, v) in menu.iter().zip(&values) {
+                p2.verif_set_memory(node.bucket(), e, 0.0, *v);
+            }
+            let stored = menu.iter().zip(&values).map(|(e, v)| format!("{}={v:e}", show_edge(e))).collect::<Vec<_>>().join(" ");
+            let what = format!("extreme-policy frequency test at the {name} (holes {} / {}, menu of {n}), {pname}; stored policy values by verif_set_memory: {stored}", show_cards(h0), show_cards(h1));
+            frequency_test(run, &mut p2, &encoder, &node, t, &what);
+            run.count(&format!("extreme-policy-test menu-size={n}"));
+            run.distinct(&(index.index(), values.iter().map(|v| v.to_bits()).collect::<Vec<u32>>()));
+        }
+    }
 }
 
 fn main() {
@@ -352,8 +781,9 @@ fn main() {
     let mut run = Run::new(&a.out);
     quiet_panics();
     let (epochs, batch, max_dump, freq_nodes, freq_draws, directed_styles, max_dump_directed) = if a.thorough() { (40usize, 6usize, 8000usize, 40usize, 4000usize, 5u64, 12000usize) } else { (14, 4, 5000, 16, 1500, 3u64, 7000usize) };
+    let (line_repeats, structured_trees) = if a.thorough() { (6usize, 8usize) } else { (2, 4) };
     run.rule = format!(
-        "{epochs} training epochs x {batch} trees from the real Blueprint::tree (empty profile at start, stand-in abstraction, traverser alternating, profile updated as Blueprint::solve does); every node of every tree goes through the clause-by-clause oracle; trees up to {max_dump} nodes are dumped for the Lean acceptor; opponent sampling: {freq_nodes} opponent nodes (menus of >= 3 edges preferred) x 2 policies (trained when non-uniform; skewed by verif_set_memory) x {freq_draws} epochs through the real explore_one, per-edge binomial 6 sigma against Profile::weight; plus {directed_styles} x 2 DIRECTED trees built on the real Tree::plant/fork + Encoder::branches + witness/explore_all with a scripted opponent (always min-raise / mostly raise / always call …) so that decision nodes deeper than the 16-edge window exist (dumped up to {max_dump_directed} nodes); plus trees at both sides of every phase boundary (Discount/Explore/Prune, epochs set by verif_set_epochs), in the Prune phase also after flooring the stored regret (<= REGRET_MIN) of some / all actions of root-level and deeper traverser buckets of the same forced deal; actionize's f32 product checked for every pot <= 2*STACK x every grid odds. distinct = (tree, node)"
+        "{epochs} training epochs x {batch} trees from the real Blueprint::tree (empty profile at start, stand-in abstraction, traverser alternating, profile updated as Blueprint::solve does); every node of every tree goes through the clause-by-clause oracle; trees up to {max_dump} nodes are dumped for the Lean acceptor; opponent sampling: {freq_nodes} opponent nodes (menus of >= 3 edges preferred) x 2 policies (trained when non-uniform; skewed by verif_set_memory) x {freq_draws} epochs through the real explore_one, per-edge binomial 6 sigma against Profile::weight; plus {directed_styles} x 2 DIRECTED trees built on the real Tree::plant/fork + Encoder::branches + witness/explore_all with a scripted opponent (always min-raise / mostly raise / always call …) so that decision nodes deeper than the 16-edge window exist (dumped up to {max_dump_directed} nodes); plus trees at both sides of every phase boundary (Discount/Explore/Prune, epochs set by verif_set_epochs), in the Prune phase also after flooring the stored regret (<= REGRET_MIN) of some / all actions of root-level and deeper traverser buckets of the same forced deal; every leaf of every tree: Node::payoff of both players sums to zero, equals Settlement::pnl and equals an independent RULES payout (fold: the folder loses what he put in; showdown: best five by enumeration); STRUCTURED RARE leaves: 88 chosen deals (royal flush on the board in each suit, royal flush with one / two hole cards, straight flushes, quads, full houses, straights and flushes on the board with and without a playing hole card, controls) x 6 line styles (check-down, bet-and-call, all-in before the flop, all-in on a later street, fold, random walk) x {line_repeats} planted by hand on Tree::plant/fork + Encoder::branches + Game::apply(Draw(chosen cards)), and {structured_trees} whole external-sampling trees with such a deal as the chance outcome (oracle + Lean acceptor); opponent sampling under EXTREME policies at 6 hand-planted nodes (menus of 13/12/7/8/13/2): actions with stored policy 1e-7 / 1e-9 / 1e-12 / f32::MIN_POSITIVE next to live ones (front / middle / end of the menu), one dominant action 0.97 / 0.999, {freq_draws} (dominant: 4x) epochs each, same per-edge 6 sigma test; actionize's f32 product checked for every pot <= 2*STACK x every grid odds. distinct = (tree, node) / (deal, line) / (node, policy)"
     );
     // ---- the f32 product in Game::actionize equals floor(pot*num/den) (model assumption)
     for pot in 0..=(2 * STACK as i32) {
@@ -505,7 +935,7 @@ fn main() {
             let tree = {
                 let mut p = profile.write().unwrap();
                 p.verif_set_epochs(base_epochs + parity);
-                directed_tree(&mut p, &Encoder::default(), style, &mut rng)
+                directed_tree(&mut p, &Encoder::default(), style, &mut rng, None)
             };
             let n = tree.all().len();
             let label = format!("directed tree style {style} walker P{}", (base_epochs + parity) % 2);
@@ -520,6 +950,54 @@ fn main() {
     }
     // ---- every training phase: Discount / Explore / Prune boundaries, both traversers; in the
     // Prune phase additionally with traverser actions whose stored regret is at or below REGRET_MIN
+    // ---- STRUCTURED RARE leaves: chosen deals (strongest possible hand on the board / in one hand,
+    // straight flushes, quads, full houses, boards that play for both …) planted by hand along
+    // single lines (check-down, bet-and-call, all-in, fold, random walk) …
+    let deals = structured_deals(&mut rng);
+    {
+        let encoder = Encoder::default();
+        for deal in deals.iter() {
+            for style in 0..6u64 {
+                for _ in 0..line_repeats {
+                    line_hand(&mut run, &mut rng, &encoder, deal, style);
+                }
+            }
+        }
+    }
+    // … and as the chance outcome of whole external-sampling trees (traverser explores every
+    // action, scripted opponent), which go through the full oracle and the Lean acceptor
+    let structured: Vec<(&str, usize, u64, usize)> = vec![
+        ("royal flush ON THE BOARD", 0, 2, 0),
+        ("royal flush ON THE BOARD", 1, 10, 1),
+        ("king-high straight flush on the board, one seat holds the ace of the suit (royal flush with one hole card)", 2, 2, 1),
+        ("quads on the board with a king, no ace out: board plays for both", 3, 11, 0),
+        ("royal flush ON THE BOARD", 2, 2, 1),
+        ("royal flush with two hole cards against a lower straight flush", 0, 2, 0),
+        ("five-high straight flush (wheel) on the board, plays for both", 1, 10, 0),
+        ("full house on the board, one seat holds the fourth king", 3, 2, 1),
+    ];
+    for (name, nth, style, parity) in structured.into_iter().take(structured_trees) {
+        let deal = match deals.iter().filter(|d| d.name == name).nth(nth) {
+            Some(d) => d,
+            None => continue,
+        };
+        let tree = {
+            let mut p = profile.write().unwrap();
+            p.verif_set_epochs(base_epochs + parity);
+            directed_tree(&mut p, &Encoder::default(), style, &mut rng, Some(deal))
+        };
+        let n = tree.all().len();
+        let label = format!("structured tree: {}, opponent script {style}, walker P{}", deal.describe(), (base_epochs + parity) % 2);
+        let line = { check_tree(&mut run, &mut rng, &tree, &profile.read().unwrap(), &mut known, &label, n <= max_dump_directed, false) };
+        if let Some(line) = line {
+            run.line(&line, "accept");
+            run.count("structured-tree-dumped");
+        }
+        run.count(&format!("structured-tree-nodes<={}", match n { 0..=99 => 99, 100..=999 => 999, 1000..=4999 => 4999, _ => 999999 }));
+        check_partition(&mut run, tree, &label);
+    }
+    // ---- opponent sampling under EXTREME policies (numerically dead actions, dominant actions)
+    extreme_policy_frequencies(&mut run, &mut rng, freq_draws);
     let (d, pr) = (robopoker::verif::CFR_DISCOUNT_PHASE, robopoker::verif::CFR_PRUNNING_PHASE);
     for e in [d - 1, d, d + 1, pr - 1, pr, pr + 1, pr + 2] {
         let force = rng.below(52) as u8;
